@@ -272,6 +272,20 @@ where
         rset: &mut RecordSet,
         n_records: Option<usize>,
     ) -> Option<Result<(), Error>> {
+        let res = self.fill_record_set(rset, n_records);
+        if !matches!(res, Some(Ok(()))) {
+            // The positions may already have been updated, but not the buffer:
+            // make sure that the record set does not expose inconsistent data
+            rset.npos = 0;
+        }
+        res
+    }
+
+    fn fill_record_set(
+        &mut self,
+        rset: &mut RecordSet,
+        n_records: Option<usize>,
+    ) -> Option<Result<(), Error>> {
         debug_assert!(n_records.unwrap_or(usize::MAX) > 0);
         // after read_record_set(), the state is always Positioned, Parsing or Finished
         match self.state {
